@@ -97,6 +97,10 @@ type histOp struct {
 // runHistory plays ops on one shared engine with shared environment objects and returns the
 // outputs; fresh=true plays every op on a new engine with fresh copies instead.
 func historyCase(r *rand.Rand, progs []string, idx int) Case {
+	if guardBegin("history "+strings.Join(progs, " ; ")) {
+		return crashCase("history " + strings.Join(progs, " ; "))
+	}
+	defer guardEnd()
 	nenv := 3
 	hosts := make([]hostEnv, nenv)
 	for i := range hosts {
